@@ -164,6 +164,10 @@ def hand_cases():
     H.append(h("J:0:%s U:0 P:0:0 W:5:0 P:0:0 P:0:0 P:0:0 P:0:0 P:0:0 A:31 Q:0" % ("1" * npieces(*many)), many))
     # partially complete at start
     H.append(h("J:0:1111111111 U:0 Q:0", big, "1100110011"))
+    # a peer leaves / chokes with listed pieces in flight that the remaining peer does NOT have (delegate must not hand them out)
+    H.append(h("J:0:1111100000 J:1:0000011000 U:0 U:1 A:31 X:0 P:1:0 P:1:0 P:1:0 P:1:0 A:31 P:1:0 A:31"))
+    H.append(h("J:0:1010101010 J:1:0101010101 U:0 U:1 A:31 X:0 A:31 P:1:0 P:1:0 P:1:0 A:31 P:1:0 P:1:0"))
+    H.append(h("J:0:1111100000 J:1:0000011000 U:0 U:1 A:31 K:0 A:8 P:1:0 P:1:0 P:1:0 P:1:0 A:31 P:1:0 U:0 A:31 Q:0"))
     # four peers
     H.append(h("J:0:1111100000 J:1:0000011111 J:2:1111111111 J:3:- U:0 U:1 U:2 U:3 P:0:0 P:1:0 P:2:0 K:2 P:0:0 X:1 A:8 U:2 H:3:2 A:31 Q:2"))
     return H
